@@ -14,6 +14,10 @@ CHECKS = {
   technique='property-based testing (Hypothesis): inverse-CDF oracle (closed form / forward CDF via erfc), monotonicity, text-vs-constructed differential through create_prior and ParameterParser',
   text='Generated priors of all four kinds (bounds in either order, magnitudes 1e-300..1e300, lin_* arguments), u including 0, 1 and extreme tails, prior strings from a grammar over the documented syntax, and default priors from (mode, bounds); each compared with closed-form inverse CDFs / erfc round trip and with the directly constructed object; exploration level.',
   note='Equal bounds and overflowing ranges excluded; leading whitespace inside the quoted text excluded; scipy.stats is the code under test, math.erfc the oracle.'),
+ 'C18': dict(
+  technique='property-based testing (Hypothesis) with a simulated MPI communicator (threads + barrier, pickling collectives) against a two-pass weighted mean/variance reference and a single-rank differential',
+  text='Generated sample sets, weight distributions and ARBITRARY sample-to-rank assignments (empty and single-sample ranks by construction) are pushed through OnlineVariance on 1-8 simulated ranks; every rank must return the two-pass weighted variance and agree with the single-process run; exploration level.',
+  note='mpi4py replaced by a double implementing its documented object-collective semantics; real MPI not available. Whole-pipeline clauses (generate_profiles / compute_derived_trace under ranks) are added in part (b).'),
 }
 
 NOT_APPLICABLE = {}
